@@ -6,12 +6,16 @@ EXTENDS Digest, Json
 VARIABLE done
 Fields(r) == DOMAIN r
 DiffCount(a, b) == IF a.kind # b.kind THEN 99 ELSE Cardinality({f \in Fields(a) : a[f] # b[f]})
-OneField == {p \in (Nodes \X Nodes) \cup (Edges \X Edges) \cup (NTombs \X NTombs) \cup (ETombs \X ETombs) : DiffCount(p[1], p[2]) = 1 /\ Pre(p[1]) # Pre(p[2])}
+AllNodes == Nodes \cup JNodes
+OneField == {p \in (AllNodes \X AllNodes) \cup (Edges \X Edges) \cup (NTombs \X NTombs) \cup (ETombs \X ETombs) : DiffCount(p[1], p[2]) = 1 /\ Pre(p[1]) # Pre(p[2])}
+\* pairs that would collide if the JSON payload were hashed as it is: they must not verify for each other
+Protected == {p \in AllNodes \X AllNodes : p[1] # p[2] /\ PreFlat(p[1]) = PreFlat(p[2]) /\ Pre(p[1]) # Pre(p[2])}
 FramedInjective == \A p \in Rows \X Rows : p[1] # p[2] => PreFramed(p[1]) # PreFramed(p[2])
 Init == done = FALSE
 Next == /\ ~done /\ done' = TRUE
         /\ \A p \in Collisions : PrintT(<<"SCN", ToJson([r1 |-> p[1], r2 |-> p[2], expect |-> "collide", class |-> Class(p)])>>)
         /\ \A p \in OneField : PrintT(<<"SCN", ToJson([r1 |-> p[1], r2 |-> p[2], expect |-> "distinct", class |-> "none"])>>)
+        /\ \A p \in Protected : PrintT(<<"SCN", ToJson([r1 |-> p[1], r2 |-> p[2], expect |-> "distinct", class |-> "JsonQuotingSeparates"])>>)
         /\ PrintT(<<"COUNTS", Cardinality(Rows), Cardinality(Collisions), Cardinality(OneField)>>)
 Spec == Init /\ [][Next]_done
 =============================================================================
